@@ -81,6 +81,16 @@ func applyPredictor(data []byte, predictor int, params Params) ([]byte, error) {
 	return nil, fmt.Errorf("unsupported predictor: %d", predictor)
 }
 
+// checkPredictorGeometry rejects /Columns and /Colors values that cannot describe
+// a row: non-positive values make the row size zero or negative (division by
+// zero, negative slice bounds), absurdly large ones overflow the product.
+func checkPredictorGeometry(columns, colors int) error {
+	if columns < 1 || colors < 1 || columns > 1<<24 || colors > 256 {
+		return fmt.Errorf("invalid predictor geometry: Columns %d, Colors %d", columns, colors)
+	}
+	return nil
+}
+
 // applyTIFFPredictor2 applies TIFF Predictor 2, which predicts each sample
 // from the sample to its left. This is rarely used in PDFs.
 func applyTIFFPredictor2(data []byte, params Params) ([]byte, error) {
@@ -90,6 +100,11 @@ func applyTIFFPredictor2(data []byte, params Params) ([]byte, error) {
 
 	if bpc != 8 {
 		return nil, fmt.Errorf("TIFF Predictor 2 only supports 8 bits per component, got %d", bpc)
+	}
+
+	// Columns and Colors come from /DecodeParms in the file
+	if err := checkPredictorGeometry(columns, colors); err != nil {
+		return nil, err
 	}
 
 	rowSize := columns * colors
@@ -125,6 +140,11 @@ func applyPNGPredictor(data []byte, predictor int, params Params) ([]byte, error
 
 	if bpc != 8 {
 		return nil, fmt.Errorf("PNG predictor only supports 8 bits per component, got %d", bpc)
+	}
+
+	// Columns and Colors come from /DecodeParms in the file
+	if err := checkPredictorGeometry(columns, colors); err != nil {
+		return nil, err
 	}
 
 	// PNG predictors work on rows with a predictor byte at the start of each row
